@@ -170,6 +170,7 @@ def run_isolated(cmd, env=None, timeout=3600, max_crashes=60, cwd=None, skip_fla
         e.update(env)
     start, mism, crashes, summary, t0 = 0, [], 0, {}, time.time()
     sig_counts, site_crashes, skip_sites = {}, {}, []
+    executed_before = 0                      # cases completed by processes that later died
     while True:
         if time.time() - t0 > timeout:
             raise MachineryError("harness exceeded its time budget: " + " ".join(cmd))
@@ -195,6 +196,7 @@ def run_isolated(cmd, env=None, timeout=3600, max_crashes=60, cwd=None, skip_fla
         mism.append(m)
         sig_counts[m["site"] + "/" + kind] = sig_counts.get(m["site"] + "/" + kind, 0) + 1
         crashes += 1
+        executed_before += max(0, crash["case"] - start)
         start = crash["case"] + 1
         # a site that has crashed twice is a finding already: later walks avoid it so the rest can be explored
         site_crashes[crash["site"]] = site_crashes.get(crash["site"], 0) + 1
@@ -203,6 +205,9 @@ def run_isolated(cmd, env=None, timeout=3600, max_crashes=60, cwd=None, skip_fla
         if crashes >= max_crashes:
             summary = dict(summary, truncated=True, reason="crash budget exhausted", resumed_at=start)
             break
+    for key in ("scenarios", "walks"):
+        if key in summary:
+            summary[key] += executed_before
     return dict(mismatches=mism, summary=summary, crashes=crashes, signature_counts=sig_counts, skipped_sites=skip_sites)
 
 
@@ -340,8 +345,9 @@ def verdict(pid, mismatches, evidence, tier):
     evidence.update(property_id=pid, tier=tier, seed=SEED, level="model_checking", violations=viol)
     evidence.setdefault("assumptions", [])
     evidence["coverage"]["known_findings_reported"] = kf
-    os.makedirs(os.path.join(VERIF, "evidence"), exist_ok=True)
-    json.dump(evidence, open(os.path.join(VERIF, "evidence", pid + ".json"), "w"), indent=1)
+    if not os.environ.get("VERIF_NO_EVIDENCE"):          # set by tools/mutants.py: runs against changed copies are not evidence
+        os.makedirs(os.path.join(VERIF, "evidence"), exist_ok=True)
+        json.dump(evidence, open(os.path.join(VERIF, "evidence", pid + ".json"), "w"), indent=1)
     return 1 if viol else 0
 
 
